@@ -199,9 +199,9 @@ def where_of(mc, name):
     ci = mc.classes['Bicomplex']
     r = ci.lookup(name)
     if r is None:
-        if name.startswith('_') and not name.startswith('__'):
-            return mc.where(ci.node)
-        raise AnalysisError('anchor vanished: Bicomplex.%s' % name)
+        # not in the class body: a private helper that moved, or a method installed on the class at import time.  Only the
+        # place of the report is decided here; whether the method exists is decided by the interpreter when it is called
+        return mc.where(ci.node)
     return mc.where(r[1])
 
 
@@ -824,7 +824,13 @@ class FW(object):
         if ci is None or name.startswith('__') and name not in ('__div__', '__rdiv__'):
             raise AttributeError(name)
         r = ci.lookup(name)
-        if r is None or r[0] not in ('method', 'static'):
+        if r is None:
+            # installed on the class at import time?
+            ok, fn = I.get_class_member(ci, name, None, raw=True)
+            if not ok or not callable(fn):
+                raise AttributeError(name)
+            return lambda *a, **k: fn(self, *a, **k)
+        if r[0] not in ('method', 'static'):
             raise AttributeError(name)
         fn = I.closure_for(r[2].module, r[1], r[2])
         if r[0] == 'static':
@@ -1019,16 +1025,13 @@ def formal_level(ctx, mc):
     ln = lambda c: models.np.log(c)                                     # noqa: E731
 
     def run_method(name, *args):
-        r = ci.lookup(name)
-        if r is None:
+        # the plain function behind Bicomplex.<name>, however the class came by it: a def in the class body, an alias such as
+        # __truediv__ = __div__, or an attribute installed on the class when the module is imported
+        I.ns(mc)                                   # (import-time statements of the module have run)
+        ok, fn = I.get_class_member(ci, name, None, raw=True)
+        if not ok:
             raise AnalysisError('anchor vanished: Bicomplex.%s' % name)
-        kind, node, owner = r
-        if kind == 'classattr':
-            # alias such as __truediv__ = __div__
-            fn = I.class_attr_value(owner, node, name)
-            fn = fn[1] if isinstance(fn, tuple) else fn
-        else:
-            fn = I.closure_for(owner.module, node, owner)
+        fn = fn[1] if isinstance(fn, tuple) else fn
         return fn(*args)
     table = [
         # name, call, expected, rule
